@@ -159,8 +159,15 @@ type ExCase struct {
 	Idx int `json:"idx"`
 }
 
+// genExhaustive samples the enumerated space. rapid's integer generators favour small values, which would put three
+// quarters of the samples on the first chain; the draw is therefore passed through a fixed 64-bit mixer (splitmix64
+// finaliser) before it is reduced to an index. The case stores the index itself.
 func genExhaustive(t *rapid.T) ExCase {
-	return ExCase{Idx: rapid.IntRange(0, exhaustiveSpace().size()-1).Draw(t, "idx")}
+	z := rapid.Uint64().Draw(t, "u") + 0x9e3779b97f4a7c15
+	z = (z ^ (z >> 30)) * 0xbf58476d1ce4e5b9
+	z = (z ^ (z >> 27)) * 0x94d049bb133111eb
+	z ^= z >> 31
+	return ExCase{Idx: int(z % uint64(exhaustiveSpace().size()))}
 }
 
 func checkExhaustive(c ExCase, v *vt.Obs) error {
